@@ -1596,6 +1596,11 @@ func genSysState(t *rapid.T) sysState {
 	}
 	if rapid.IntRange(0, 3).Draw(t, "mac") != 0 {
 		st.MAC = rapid.SliceOfN(rapid.Byte(), 6, 6).Draw(t, "macbytes")
+		if rapid.IntRange(0, 5).Draw(t, "maclen") == 0 {
+			// not every link has 48-bit addresses (what Go reports for InfiniBand, 802.15.4, FireWire, some tunnels)
+			n := rapid.SampledFrom([]int{1, 4, 5, 7, 8, 16, 20, 32}).Draw(t, "macn")
+			st.MAC = rapid.SliceOfN(rapid.Byte(), n, n).Draw(t, "macbytesn")
+		}
 	}
 	st.AddrErr = rapid.IntRange(0, 24).Draw(t, "addrerr") == 0
 	st.RouteErr = rapid.IntRange(0, 24).Draw(t, "routeerr") == 0
@@ -1689,7 +1694,9 @@ func expectRA(ri rIface, st sysState, epoch time.Time) (ra *ndp.RouterAdvertisem
 		case "mtu":
 			ra.Options = append(ra.Options, ndp.NewMTU(uint32(p.MTU)))
 		case "lla":
-			if len(st.MAC) > 0 {
+			// (a hardware address that is not 48 bits long - InfiniBand 20 bytes, IEEE 802.15.4 / FireWire 8 - cannot be
+			// carried by the option as the codec knows it: like an absent one it yields no option; finding F20)
+			if len(st.MAC) == 6 {
 				ra.Options = append(ra.Options, &ndp.LinkLayerAddress{Direction: ndp.Source, Addr: net.HardwareAddr(st.MAC)})
 			}
 		case "captive-portal":
